@@ -226,6 +226,7 @@ def model_check_pay(binary, workdir, tier):
 MC_FAMILIES = {  # cfg file, (quick depth, thorough depth)
     "timeout": ("MC_Timeout.cfg", (6, 9)), "did": ("MC_Did.cfg", (6, 8)), "super": ("MC_Super.cfg", (5, 7)), "reward": ("MC_Reward.cfg", (6, 7)), "auth": ("MC_Auth.cfg", (6, 7)),
     "sidauth": ("MC_SidAuth.cfg", (7, 10)),
+    "sponsor": ("MC_Sponsor.cfg", (14, 16)),
 }
 MC_FAMILY_CFG = {"accounts": 8, "dids": 2, "validators": 2, "balance": 10000000, "blockReward": 840}
 
@@ -236,7 +237,7 @@ def model_check_families(binary, workdir, tier):
     for fam, (cfgfile, depths) in MC_FAMILIES.items():
         d = os.path.join(workdir, fam)
         stage_spec(d)
-        gcfg = MC_CFG if fam == "timeout" else MC_FAMILY_CFG   # the timeout family jumps over long spans: no block reward there
+        gcfg = MC_CFG if fam in ("timeout", "sponsor") else MC_FAMILY_CFG   # the timeout family jumps over long spans: no block reward there
         if fam == "sidauth":
             gcfg = dict(MC_FAMILY_CFG, accounts=12)           # a09..a11 create and are bound to the sid DIDs
         rc, o, _ = run([binary, "genesis", "--cfg", json.dumps(gcfg), "--out", os.path.join(d, "genesis.json")])
